@@ -22,9 +22,15 @@ def baseline_ok(out):
     res = re.findall(r"test result: (\w+)\. (\d+) passed; (\d+) failed", out)
     passed = sum(int(p) for _, p, _ in res); failed = sum(int(f) for _, _, f in res)
     return passed >= 88 and failed == 6, passed, failed
-def run_demo(cwd):
+def run_demo(cwd, mdir=None):
+    if mdir and os.path.exists(f"{mdir}/demo.sh"):
+        rc, out = run(f"sh {mdir}/demo.sh 2>&1 | tail -30; exit ${{PIPESTATUS[0]}}", cwd)
+        rc, out = run(f"bash -c 'sh {mdir}/demo.sh > /tmp/demo_sh.out 2>&1; echo EXIT=$?'", cwd)
+        full = open('/tmp/demo_sh.out', errors='replace').read()
+        ok = "EXIT=0" in out and "test result: ok" in full and "FAILED" not in full
+        return ok, full[-1500:]
     if os.path.exists(f"{cwd}/tests/seeded_demo.rs"):
-        rc, out = run(f"cargo test --offline --features {FEATS} --test seeded_demo 2>&1 | tail -30", cwd)
+        rc, out = run(f"cargo test --offline --features verif-hooks,{FEATS} --test seeded_demo 2>&1 | tail -30", cwd)
         ok = "test result: ok" in out and "FAILED" not in out
         return ok, out[-1500:]
     return None, "no demo.rs"
@@ -41,9 +47,11 @@ for mdir in sorted(glob.glob(f"{wt}/seeded/m*")):
     demo = None
     for cand in ("demo.rs",):
         if os.path.exists(f"{mdir}/{cand}"): demo = cand
+    has_sh = os.path.exists(f"{mdir}/demo.sh")
+    if has_sh: demo = None
     if demo: shutil.copy(f"{mdir}/{demo}", f"{wt}/tests/seeded_demo.rs")
     # demo must pass without the change
-    ok0, out0 = run_demo(wt)
+    ok0, out0 = run_demo(wt, mdir)
     run(f"git apply {mdir}/patch.diff", wt)
     rc_b, out_b = run(f"cargo build --offline 2>&1 | tail -3 && cargo build --offline --features verif-hooks,{FEATS} 2>&1 | tail -3", wt)
     conf["builds"] = "error" not in out_b
@@ -53,7 +61,7 @@ for mdir in sorted(glob.glob(f"{wt}/seeded/m*")):
     okb, p, f = baseline_ok(out_t)
     conf["baseline_passed"], conf["baseline_failed_network_only"] = p, f
     conf["baseline_ok"] = okb
-    ok1, out1 = run_demo(wt)
+    ok1, out1 = run_demo(wt, mdir)
     run("git checkout -- . ", wt)
     conf["demo_passes_without_change"] = ok0
     conf["demo_fails_with_change"] = (ok1 is False)
